@@ -405,7 +405,7 @@ def obligations(prop, tier, scratch, say):
     """returns obligation records for property `prop` (C20 or C18)"""
     res = []
     t_all = time.time()
-    cap = 240 if tier == "quick" else 1500
+    cap = 600 if tier == "quick" else 1800
     try:
         mir = M.dump_mir(REPO, ["libm"] if prop == "C18" else [], scratch, prop)
         funcs = M.parse_mir(mir)
